@@ -90,5 +90,9 @@ def close(a: Any, b: Any, rel: float = 1e-9) -> bool:
     if isinstance(a, (list, tuple)) and isinstance(b, (list, tuple)):
         return len(a) == len(b) and all(close(x, y, rel) for x, y in zip(a, b))
     if isinstance(a, (int, float)) and isinstance(b, (int, float)) and not isinstance(a, bool) and not isinstance(b, bool):
+        if a != a or b != b:
+            return a != a and b != b  # NaN matches NaN
+        if a in (math.inf, -math.inf) or b in (math.inf, -math.inf):
+            return a == b
         return math.isclose(float(a), float(b), rel_tol=rel, abs_tol=1e-12)
     return a == b
